@@ -298,9 +298,14 @@ def evaluate(case):
         raised = None
         try:
             args = [to_arg(M, c) for c in conds]
-            if entry == "T_list":
-                mt = MS.SqlMethodT(sel_sql, order_by=ctor_order)
-                tbl = mt.list(conn, *args, **call_kw)
+            if entry.startswith("T_"):
+                if entry.startswith("T_wrap"):
+                    # SqlMethodT around an existing SqlMethod (which carries the default order)
+                    mt = MS.SqlMethodT(M.SqlMethod(sel_sql, order_by=ctor_order))
+                else:
+                    mt = MS.SqlMethodT(sel_sql, order_by=ctor_order)
+                entry = {"list": "list", "one": "one", "oon": "one_or_none"}[entry.split("_")[-1]]
+                tbl = getattr(mt, entry)(conn, *args, **call_kw)
                 got = list(tbl.r)
             else:
                 m = M.SqlMethod(sel_sql, order_by=ctor_order)
@@ -481,7 +486,8 @@ def st_case(draw, max_conds=4, with_kwargs=True):
     return {"rows": rows, "conds": conds, "kwargs": kwargs,
             "order": draw(st.sampled_from([None, "asc", "desc"])), "order_in_ctor": draw(st.booleans()),
             "scalars": draw(st.integers(0, 3)) == 0,
-            "entry": draw(st.sampled_from(["list", "list", "all", "one", "one_or_none", "T_list"])),
+            "entry": draw(st.sampled_from(["list", "list", "all", "one", "one_or_none", "T_list", "T_wrap_list", "T_wrap_list",
+                                           "T_one", "T_wrap_oon"])),
             "percent": draw(st.integers(0, 3)) == 0}
 
 
